@@ -8,6 +8,7 @@
 (*   req r lane op known    remote r sent link|sync|unlink|cmd             *)
 (*   frame r lane kind [body] known                                        *)
 (*   gone r                 remote r stopped reading                       *)
+(*   trunc r                remote r's stream ended inside a frame          *)
 (*   closed r               r's disconnection promise was completed        *)
 (*   quiescent drained                                                     *)
 (*   end clean              end of a run; clean = the agent stopped cleanly*)
@@ -23,8 +24,9 @@ CONSTANTS Lanes,      \* lanes that exist
 Rec == ndJsonDeserialize(IOEnv.TRACE)
 
 VARIABLES i, open, reqs, linkedN, syncReq, syncedN, nf, produced, alive, everUnlink, closed,
-          owed   \* a sync request was sent and no synced has been received since
-vars == <<i, open, reqs, linkedN, syncReq, syncedN, nf, produced, alive, everUnlink, closed, owed>>
+          owed,  \* a sync request was sent and no synced has been received since
+          dead   \* the agent instance was killed / did not stop cleanly: only then may a remote find a truncated frame
+vars == <<i, open, reqs, linkedN, syncReq, syncedN, nf, produced, alive, everUnlink, closed, owed, dead>>
 
 Has(e, f) == f \in DOMAIN e
 Max(a, b) == IF a > b THEN a ELSE b
@@ -32,10 +34,10 @@ RL(x) == [r \in Remotes |-> [l \in Lanes |-> x]]
 
 Fresh == /\ open = RL(FALSE) /\ reqs = RL(0) /\ linkedN = RL(0) /\ syncReq = RL(0) /\ syncedN = RL(0)
          /\ nf = [r \in Remotes |-> 0] /\ alive = [r \in Remotes |-> TRUE]
-         /\ everUnlink = RL(FALSE) /\ closed = [r \in Remotes |-> FALSE] /\ owed = RL(FALSE)
+         /\ everUnlink = RL(FALSE) /\ closed = [r \in Remotes |-> FALSE] /\ owed = RL(FALSE) /\ dead = FALSE
 FreshP == /\ open' = RL(FALSE) /\ reqs' = RL(0) /\ linkedN' = RL(0) /\ syncReq' = RL(0) /\ syncedN' = RL(0)
           /\ nf' = [r \in Remotes |-> 0] /\ alive' = [r \in Remotes |-> TRUE]
-          /\ everUnlink' = RL(FALSE) /\ closed' = [r \in Remotes |-> FALSE] /\ owed' = RL(FALSE)
+          /\ everUnlink' = RL(FALSE) /\ closed' = [r \in Remotes |-> FALSE] /\ owed' = RL(FALSE) /\ dead' = FALSE
 
 TraceInit == i = 1 /\ Fresh /\ produced = [l \in Lanes |-> {}] /\ TLCSet(1, 1)
 
@@ -44,7 +46,7 @@ Step(e) ==
     \/ /\ e.e = "restart" /\ FreshP /\ UNCHANGED produced
     \/ /\ e.e = "produce"
        /\ produced' = [produced EXCEPT ![e.lane] = @ \cup {e.body}]
-       /\ UNCHANGED <<open, reqs, linkedN, syncReq, syncedN, nf, alive, everUnlink, closed, owed>>
+       /\ UNCHANGED <<open, reqs, linkedN, syncReq, syncedN, nf, alive, everUnlink, closed, owed, dead>>
     \/ /\ e.e = "req" /\ e.lane \in Lanes
        /\ LET r == e.r  l == e.lane IN
           \* (an unlink sent while a sync of r is unanswered may be processed in the middle of the lane's answer to
@@ -55,41 +57,46 @@ Step(e) ==
           /\ syncReq' = IF e.op = "sync" THEN [syncReq EXCEPT ![r][l] = @ + 1] ELSE syncReq
           /\ everUnlink' = IF e.op = "unlink" THEN [everUnlink EXCEPT ![r][l] = TRUE] ELSE everUnlink
           /\ owed' = IF e.op = "sync" THEN [owed EXCEPT ![r][l] = TRUE] ELSE owed
-       /\ UNCHANGED <<open, linkedN, syncedN, nf, produced, alive, closed>>
+       /\ UNCHANGED <<open, linkedN, syncedN, nf, produced, alive, closed, dead>>
     \/ /\ e.e = "req" /\ e.lane \notin Lanes
        \* a link or sync for a lane that does not exist is owed exactly one lane-not-found
        /\ nf' = IF e.op \in {"link", "sync"} THEN [nf EXCEPT ![e.r] = @ + 1] ELSE nf
-       /\ UNCHANGED <<open, reqs, linkedN, syncReq, syncedN, produced, alive, everUnlink, closed, owed>>
+       /\ UNCHANGED <<open, reqs, linkedN, syncReq, syncedN, produced, alive, everUnlink, closed, owed, dead>>
     \/ /\ e.e = "frame" /\ e.lane \in Lanes /\ e.kind = "linked"
        /\ linkedN[e.r][e.lane] < reqs[e.r][e.lane]          \* every linked answers a request
        /\ linkedN' = [linkedN EXCEPT ![e.r][e.lane] = @ + 1]
        /\ open' = [open EXCEPT ![e.r][e.lane] = TRUE]
-       /\ UNCHANGED <<reqs, syncReq, syncedN, nf, produced, alive, everUnlink, closed, owed>>
+       /\ UNCHANGED <<reqs, syncReq, syncedN, nf, produced, alive, everUnlink, closed, owed, dead>>
     \/ /\ e.e = "frame" /\ e.lane \in Lanes /\ e.kind = "event"
        /\ open[e.r][e.lane]                                  \* never outside a link
        /\ Has(e, "body") /\ e.body \in produced[e.lane]      \* byte for byte a body this lane produced
-       /\ UNCHANGED <<open, reqs, linkedN, syncReq, syncedN, nf, produced, alive, everUnlink, closed, owed>>
+       /\ UNCHANGED <<open, reqs, linkedN, syncReq, syncedN, nf, produced, alive, everUnlink, closed, owed, dead>>
     \/ /\ e.e = "frame" /\ e.lane \in Lanes /\ e.kind = "synced"
        /\ open[e.r][e.lane]
        /\ syncedN[e.r][e.lane] < syncReq[e.r][e.lane]        \* only after that remote asked to sync
        /\ syncedN' = [syncedN EXCEPT ![e.r][e.lane] = @ + 1]
        /\ owed' = [owed EXCEPT ![e.r][e.lane] = FALSE]
-       /\ UNCHANGED <<open, reqs, linkedN, syncReq, nf, produced, alive, everUnlink, closed>>
+       /\ UNCHANGED <<open, reqs, linkedN, syncReq, nf, produced, alive, everUnlink, closed, dead>>
     \/ /\ e.e = "frame" /\ e.lane \in Lanes /\ e.kind = "unlinked"
        /\ open[e.r][e.lane]                                  \* exactly one unlinked closes a link
        /\ open' = [open EXCEPT ![e.r][e.lane] = FALSE]
-       /\ UNCHANGED <<reqs, linkedN, syncReq, syncedN, nf, produced, alive, everUnlink, closed, owed>>
+       /\ UNCHANGED <<reqs, linkedN, syncReq, syncedN, nf, produced, alive, everUnlink, closed, owed, dead>>
     \/ /\ e.e = "frame" /\ e.lane \notin Lanes
        /\ e.kind = "unlinked" /\ nf[e.r] > 0
        /\ Has(e, "body") /\ e.body = "@laneNotFound"
        /\ nf' = [nf EXCEPT ![e.r] = @ - 1]
-       /\ UNCHANGED <<open, reqs, linkedN, syncReq, syncedN, produced, alive, everUnlink, closed, owed>>
+       /\ UNCHANGED <<open, reqs, linkedN, syncReq, syncedN, produced, alive, everUnlink, closed, owed, dead>>
+    \/ /\ e.e = "trunc"
+       \* the remote's stream ended inside a frame: only an agent that was killed may leave a truncated frame behind
+       /\ dead
+       /\ alive' = [alive EXCEPT ![e.r] = FALSE]
+       /\ UNCHANGED <<open, reqs, linkedN, syncReq, syncedN, nf, produced, everUnlink, closed, owed, dead>>
     \/ /\ e.e = "gone"
        /\ alive' = [alive EXCEPT ![e.r] = FALSE]
-       /\ UNCHANGED <<open, reqs, linkedN, syncReq, syncedN, nf, produced, everUnlink, closed, owed>>
+       /\ UNCHANGED <<open, reqs, linkedN, syncReq, syncedN, nf, produced, everUnlink, closed, owed, dead>>
     \/ /\ e.e = "closed"
        /\ closed' = [closed EXCEPT ![e.r] = TRUE]
-       /\ UNCHANGED <<open, reqs, linkedN, syncReq, syncedN, nf, produced, alive, everUnlink, owed>>
+       /\ UNCHANGED <<open, reqs, linkedN, syncReq, syncedN, nf, produced, alive, everUnlink, owed, dead>>
     \/ /\ e.e = "quiescent"
        /\ \A k \in 1..Len(e.drained) :
              LET r == e.drained[k] IN
@@ -98,13 +105,14 @@ Step(e) ==
                /\ \A l \in Lanes : ~everUnlink[r][l] =>
                     /\ (reqs[r][l] > 0 => open[r][l])        \* a link/sync request opens the link
                     /\ (l \in SyncLanes => ~owed[r][l])    \* the last sync is answered (several may share one synced)
-       /\ UNCHANGED <<open, reqs, linkedN, syncReq, syncedN, nf, produced, alive, everUnlink, closed, owed>>
+       /\ UNCHANGED <<open, reqs, linkedN, syncReq, syncedN, nf, produced, alive, everUnlink, closed, owed, dead>>
     \/ /\ e.e = "end"
        \* when the agent stops every open link of a remote that is still reading is closed with
        \* unlinked and the remote's disconnection promise is completed
        /\ e.clean => \A r \in Remotes : alive[r] =>
                         /\ \A l \in Lanes : ~open[r][l]
                         /\ (\E l \in Lanes : reqs[r][l] > 0) => closed[r]
+       /\ dead' = ~e.clean
        /\ UNCHANGED <<open, reqs, linkedN, syncReq, syncedN, nf, produced, alive, everUnlink, closed, owed>>
 
 TraceNext == /\ i <= Len(Rec)
